@@ -16,3 +16,4 @@ missing=sorted(base-passed)
 print(f"SUITE {tag}: baseline {len(base)} passed-now {len(passed)} baseline-missing {len(missing)}")
 for m in missing[:20]: print("  MISSING", m)
 PY
+rm -f /var/tmp/suite/$TAG.xml /var/tmp/suite/$TAG.log
